@@ -40,31 +40,23 @@ theorem addJitter_value (a r : Op α) (c : α) (h : addJitter a c = .ok r) (i j 
 /-- **`a @ b` for an operator `b`** (rows of the result inside `a`'s row range): the structured results of
 `Zero.matmul`, `Identity.matmul`, `ConstantDiag.matmul`, `Diag.matmul` (× Dense, × Triangular(Dense),
 × Diag) and the lazy `MatmulLinearOperator` all denote the matrix product. -/
-theorem matmulOp_value (a b r : Op α) (h : matmulOp a b = .ok r) (i j : Nat) (hi : i < a.rows) :
-    r.denote i j = sumN a.cols fun k => a.denote i k * b.denote k j := matmulOp_refines a b r h i j hi
+theorem matmulOp_value (a b r : Op α) (h : matmulOp a b = .ok r) (i j : Nat) (hi : i < a.rows)
+    (hk : a.cols = b.rows) :
+    r.denote i j = sumN a.cols fun k => a.denote i k * b.denote k j := matmulOp_refines a b r h i j hi hk
 
 /-- The Mul constructor's operand swap (larger root first) is invisible in the value. -/
 theorem mkMul_value (a b : Op α) (i j : Nat) : (mkMul a b).denote i j = a.denote i j * b.denote i j :=
   mkMul_refines a b i j
 
-/-- **Defect D31 (code as it is)**: `IdentityLinearOperator._mul_matrix` returns `other`, so the model's
-`Identity * A` is `A`, whose off-diagonal entries differ from the elementwise product `I ∘ A`. -/
-theorem mulMatrix_identity_counterexample :
-    ∃ r : Op Int, mulMatrix {} id (.identity 2) (.dense 2 2 fun _ _ => 1) = .ok r ∧
-      r.denote 0 1 ≠ (Op.identity 2 : Op Int).denote 0 1 * (Op.dense 2 2 fun _ _ => (1 : Int)).denote 0 1 :=
-  ⟨_, rfl, by decide⟩
+/-- **The previous `IdentityLinearOperator._mul_matrix` (`return other`, before fix 7b74d3a) was wrong**: a statement
+about the OLD formula only — `A`'s off-diagonal entries differ from the elementwise product `I ∘ A`. -/
+theorem old_code_identity_mul_counterexample :
+    (oldIdentityMulMatrix 2 (Op.dense 2 2 fun _ _ => (1 : Int))).denote 0 1 ≠
+      (Op.identity 2 : Op Int).denote 0 1 * (Op.dense 2 2 fun _ _ => (1 : Int)).denote 0 1 := by decide
 
-/-- With the proposed fix (notes/C02_fix_3.diff) the same product is right. -/
-theorem mulMatrix_identity_fixed (n : Nat) (b : Op α) (hz : b.isZero = false) (i j : Nat) :
-    ∃ r, mulMatrix { identityMulFixed := true } id (.identity n) b = .ok r ∧
-      r.denote i j = (Op.identity n : Op α).denote i j * b.denote i j := by
-  refine ⟨.diag n fun i => b.denote i i, ?_, ?_⟩
-  · simp [mulMatrix, hz]
-  · by_cases hij : i = j <;> simp [denote, hij]
-
-/-- **Defect D04 (code as it is)**: `X - Zero` fails in the model exactly as in the library. -/
-theorem sub_zero_counterexample (S : ScalarOps Int) :
-    sub {} S (.identity 2 : Op Int) (.zero 2 2) = .error (.internal 4) := rfl
+/-- **The previous `ZeroLinearOperator.mul(python number)` (before fix 63d7878) produced no value** (AttributeError), so
+`X - Zero` failed for every `X`; statement about the OLD formula only. -/
+theorem old_code_zero_mul_counterexample : (oldZeroMulPyNumber 2 2 : Option (Op Int)) = none := rfl
 
 /-! ### the dispatch model's case lists are the ladders in /repo's source (regenerated every run) -/
 open LinOp.Generated.C02
@@ -100,7 +92,15 @@ theorem ladder_lrrad_add : ladder "LowRankRootAddedDiagLinearOperator" "__add__"
 theorem ladder_sum_add : ladder "SumLinearOperator" "__add__" =
     some ["other:ZeroLinearOperator", "other:DiagLinearOperator", "other:SumLinearOperator", "other:LinearOperator",
           "other:Tensor"] := by decide +kernel
-theorem ladder_zero_add : ladder "ZeroLinearOperator" "__add__" = some [] := by decide +kernel
+theorem ladder_zero_add : ladder "ZeroLinearOperator" "__add__" =
+    some ["other:is_tensor", "other:LinearOperator", "other:LinearOperator"] := by decide +kernel
+theorem ladder_zero_mul : ladder "ZeroLinearOperator" "mul" = some ["other:is_tensor", "other:LinearOperator"] := by
+  decide +kernel
+/-- `IdentityLinearOperator` has no `_mul_matrix` of its own any more (it must inherit ConstantDiag's). -/
+theorem ladder_identity_mul_matrix : ladder "IdentityLinearOperator" "_mul_matrix" = none := by decide +kernel
+theorem ladder_tri_init : ladder "TriangularLinearOperator" "__init__" =
+    some ["tensor:TriangularLinearOperator", "tensor:BatchRepeatLinearOperator", "base_linear_op:TriangularLinearOperator",
+          "tensor:is_tensor"] := by decide +kernel
 
 theorem table_mul_constant_overriders : overriders "_mul_constant" =
     ["LinearOperator", "BlockLinearOperator", "DiagLinearOperator", "ConstantDiagLinearOperator",
@@ -108,7 +108,7 @@ theorem table_mul_constant_overriders : overriders "_mul_constant" =
      "LowRankRootAddedDiagLinearOperator", "MulLinearOperator", "RootLinearOperator", "SumLinearOperator",
      "TriangularLinearOperator"] := by decide +kernel
 theorem table_mul_matrix_overriders : overriders "_mul_matrix" =
-    ["LinearOperator", "DiagLinearOperator", "ConstantDiagLinearOperator", "IdentityLinearOperator"] := by decide +kernel
+    ["LinearOperator", "DiagLinearOperator", "ConstantDiagLinearOperator"] := by decide +kernel
 theorem table_mul_overriders : overriders "mul" = ["LinearOperator", "ZeroLinearOperator"] := by decide +kernel
 theorem table_matmul_overriders : overriders "matmul" =
     ["LinearOperator", "BlockDiagLinearOperator", "DiagLinearOperator", "ConstantDiagLinearOperator",
